@@ -118,9 +118,38 @@ class DifferentialCheck(core.CheckBase):
                 '%s: parsing the specification encoding (%s..) does not recover the encoded values: differs at %s' % (
                     pair.label, pair.wire[:32].hex(), structural.diff_path(expected_state, parsed_state)), case))
         found.extend(self.buffer_kinds(pair, parsed_state, case))
+        found.extend(self.followed_by_more(pair, parsed_state, case))
         found.extend(self.extra_oracles(pair, parsed, case))
         found.extend(self.edit_consistency(pair, case))
         found.extend(self.collection_kinds(pair, case))
+        return found
+
+    FRAMED = ('openvpn-tcp', 'mysql-packet', 'tpkt', 'tls-record', 'ssl2-', 'client-hello', 'server-hello', 'hello-retry-request',
+              'certificate', 'server-key-exchange', 'server-hello-done', 'extension-')
+
+    def followed_by_more(self, pair, parsed_state, case):
+        """A unit that carries its own length (record, packet, handshake message, extension) ends where that length says,
+        whatever is already in the buffer behind it: the next unit, padding, garbage."""
+        found = []
+        if not pair.label.startswith(self.FRAMED):
+            return found
+        cls, name = pair.cls, pair.cls.__name__
+        for what, suffix in (('one zero octet', b'\x00'), ('a copy of itself', pair.wire), ('seven 0xff octets', b'\xff' * 7)):
+            self.stats['followed_by_more_parses'] += 1
+            try:
+                other, consumed = cls.parse_immutable(pair.wire + suffix)
+            except Exception as e:  # pylint: disable=broad-except
+                found.append(self.violation(
+                    'followed-by-more|%s|rejects:%s%s' % (name, type(e).__name__, pair.key_suffix),
+                    '%s: accepted alone, but followed by %s it raises %r' % (pair.label, what, e), case))
+                break
+            if consumed != len(pair.wire) or structural.deep_state(other) != parsed_state:
+                found.append(self.violation(
+                    'followed-by-more|%s%s' % (name, pair.key_suffix),
+                    '%s: followed by %s it is read as %d octets (alone: %d) %s' % (
+                        pair.label, what, consumed, len(pair.wire),
+                        'with other values' if structural.deep_state(other) != parsed_state else 'with the same values'), case))
+                break
         return found
 
     def buffer_kinds(self, pair, parsed_state, case):
